@@ -24,6 +24,62 @@ def gen(ctx):
     }
 
 
+def _write_project(d, files, ops, config):
+    import shutil
+    shutil.rmtree(d, ignore_errors=True)
+    os.makedirs(os.path.join(d, "schema"))
+    os.makedirs(os.path.join(d, "ops"))
+    for i, t in enumerate(files):
+        open(os.path.join(d, "schema", "s%d.graphql" % i), "w").write(t)
+    for i, t in enumerate(ops):
+        open(os.path.join(d, "ops", "q%d.graphql" % i), "w").write(t)
+    open(os.path.join(d, "graphql.config.yaml"), "w").write(config)
+
+
+def _run_cli(cli, d):
+    import hashlib
+    import subprocess
+    p = subprocess.run([cli, "--output-format", "json", "check", "generate"], cwd=d, stdout=subprocess.PIPE,
+                       stderr=subprocess.PIPE, timeout=120)
+    h = hashlib.sha1()
+    h.update(p.stdout)
+    h.update(p.stderr)
+    for root, _, fs in sorted(os.walk(d)):
+        for f in sorted(fs):
+            if f.endswith((".ts", ".map")):
+                h.update(f.encode())
+                h.update(open(os.path.join(root, f), "rb").read())
+    return p.returncode, h.hexdigest()
+
+
+def replay(ctx, path):
+    """re-runs the concrete project stored in a replay file through the real CLI (fresh processes);
+    falls back to re-running the whole check with the recorded seed"""
+    import json
+    data = json.load(open(path))
+    case = data.get("case") or data
+    if "schema_files" not in case or "config" not in case:
+        return vlib.generic_replay(ctx, path)
+    ok, cli = vlib.cli_build(ctx)
+    if not ok:
+        print("cannot build nitrogql-cli")
+        return 1
+    base = os.path.join(vlib.BUILD, "c17-replay")
+    _write_project(os.path.join(base, "a"), case["schema_files"], case.get("operations", []), case["config"])
+    runs = [_run_cli(cli, os.path.join(base, "a")) for _ in range(8)]
+    print("8 fresh CLI processes on the stored project: exit codes %s, %d distinct output digest(s)"
+          % (sorted(set(r[0] for r in runs)), len(set(r[1] for r in runs))))
+    bad = len(set(runs)) > 1
+    if "permuted_schema_files" in case:
+        _write_project(os.path.join(base, "b"), case["permuted_schema_files"], case.get("operations", []),
+                       case.get("permuted_config", case["config"]))
+        rb = _run_cli(cli, os.path.join(base, "b"))
+        print("permuted project: exit code %d (original %d)" % (rb[0], runs[0][0]))
+        bad = bad or rb[0] != runs[0][0]
+    print("REPRODUCED" if bad else "not reproduced by the CLI alone (see the 'files_that_differ' / normal-form fields of the replay)")
+    return 1 if bad else 0
+
+
 def run(ctx):
     ok, cli = vlib.cli_build(ctx)
     extra = []
